@@ -377,6 +377,20 @@ def dyn_record(w: World, t: dict, sym: str):
                     "twin": {"has": False}, "spy": []}}
 
 
+def eval_by_name(w: World, F):
+    """the function evaluated at the values V1, arguments found by their names <variable>_<element>; None if a name is unknown"""
+    V = VALS["V1"]
+    args = []
+    for n in F.name_in():
+        var, _, el_ = n.rpartition("_")
+        if el_ not in V or var not in V[el_]:
+            return None
+        args.append(cs.DM(list(map(float, V[el_][var]))))
+    outs = F(*args)
+    outs = outs if isinstance(outs, (list, tuple)) else [outs]
+    return [(nm, np.asarray(o, float).reshape(-1)) for nm, o in zip(F.name_out(), outs)]
+
+
 def replay_transition(t: dict, same_names: bool = False, recycle: bool = False) -> dict:
     out = {"c12": [], "c13": [], "c19": [], "crash": [], "drift": [], "dyn": None}
     w = World(same_names, recycle)
@@ -454,6 +468,28 @@ def replay_transition(t: dict, same_names: bool = False, recycle: bool = False) 
             out["c19"].append(["function has free symbols", nfree])
         if exp[1] and not same_names:
             out["dyn"] = dyn_record(w, t, c[1])
+    # ---- C19: compiling is an observation (the model's compile leaves the state unchanged): the function produced at the
+    # end of a history that compiled before must be the function of the same history WITHOUT the earlier compilations
+    if (c[0] == "compile" and exp[0] == "function" and last[0] == "function" and not same_names and not recycle
+            and any(x[0] == "compile" for x in hist[:-1])):
+        w2 = World(False, False)
+        for x in hist[:-1]:
+            if x[0] != "compile":
+                w2.call(x)
+        r2 = w2.call(c)
+        if r2[0] == "function":
+            try:
+                a, b = eval_by_name(w, w.F), eval_by_name(w2, w2.F)
+            except BaseException:  # noqa: BLE001
+                a = b = None
+            if a is not None and b is not None:
+                if [n for n, _ in a] != [n for n, _ in b]:
+                    out["c19"].append(["the function does not reflect the most recent step: its results differ from those of the same history without the earlier compilations", [n for n, _ in a], [n for n, _ in b]])
+                else:
+                    for (n, x), (_, y) in zip(a, b):
+                        if x.shape != y.shape or not np.allclose(x, y, rtol=1e-9, atol=1e-9, equal_nan=True):
+                            out["c19"].append(["the function does not reflect the most recent step: it differs from the function of the same history without the earlier compilations", n, x.tolist(), y.tolist()])
+                            break
     # ---- C12: repeatability of every NumPy step from caller values made along this history
     for la, r, vals, par, opts, got, dst in w.repeat:
         ref = fresh_np_step(la, r, vals, par, opts, dst)
